@@ -26,6 +26,8 @@ class Plan(object):
         d = d or {}
         self.crash_at = d.get('crash_at')            # seq number: die *before* this op
         self.crash_after = d.get('crash_after')      # seq number: die right after this op
+        self.interrupt_before = d.get('interrupt_before')   # seq number: deliver SIGINT (KeyboardInterrupt) before / after this op
+        self.interrupt_after = d.get('interrupt_after')
         self.faults = [dict(f) for f in d.get('faults', [])]  # {at, errno, sticky}
         self.budget = d.get('budget')                # max ops
         self.mounts = d.get('mounts', ['/'])
@@ -152,6 +154,10 @@ class Shim(object):
         if plan.crash_at is not None and seq == plan.crash_at:
             self.record([seq, op, paths, entries, 'CRASH'])
             self.die(137)
+        if plan.interrupt_before is not None and seq == plan.interrupt_before:
+            self.record([seq, op, paths, entries, 'INTERRUPT'])
+            plan.interrupt_before = None
+            raise KeyboardInterrupt()
         inj = None
         for f in plan.faults:
             if f['at'] == seq and (not f.get('op') or f['op'] == op):
@@ -342,6 +348,10 @@ def _make_wrapper(name, orig):
             S.record([seq, name, paths, entries, _result_of(name, r)] + ([extra] if extra is not None else []))
             if S.plan.crash_after is not None and seq == S.plan.crash_after:
                 S.die(137)
+            if S.plan.interrupt_after is not None and seq == S.plan.interrupt_after:
+                S.plan.interrupt_after = None
+                S.record([seq, 'SIGINT', [], None, 'INTERRUPT'])
+                raise KeyboardInterrupt()
             return r
         finally:
             S.inside -= 1
@@ -379,6 +389,13 @@ def _make_open(orig):
             except Exception:
                 pass
             S.record([seq, 'fopen', [ap], entries, 'ok', mode])
+            if S.plan.crash_after is not None and seq == S.plan.crash_after:
+                S.die(137)
+            if S.plan.interrupt_after is not None and seq == S.plan.interrupt_after:
+                S.plan.interrupt_after = None
+                S.record([seq, 'SIGINT', [], None, 'INTERRUPT'])
+                f.close()
+                raise KeyboardInterrupt()
             return f
         finally:
             S.inside -= 1
